@@ -2,8 +2,18 @@
 # Generates /verif/MANIFEST.json from the table below (kept in one place so it stays valid).
 import json
 CLAIMED = {
+ "C01": ("exploration", "Seeded simulation of the full bridge loop (deposits on Ethereum/BSC/Minter models with arbitrary amount/fee/destination, withdrawals, cancels, batching, relays, executions, timeouts, refunds, Byzantine minority, transport faults, decimals 0..24, commission rates). After every ABCI step two exact-rational laws are checked per asset: (solvency) supply + in-flight <= custody held by the external models minus the initial liquidity; (ledger) supply + pending may grow in a step by at most what the deposits applied in that step locked on the external model.", "3/C01", "deterministic simulation: conservation invariants against external custody models"),
+ "C02": ("exploration", "Every record that flips to Accepted is re-tallied by the harness from the raw staking store after that EndBlock (distinct bonded voters, exact integers 100*sum >= 66*total); every counted vote must match a claim tx the harness delivered successfully as that validator or its registered orchestrator; votes from foreign/unbonded accounts must be rejected. Workload: near-threshold power splits, stake churn and jailing between vote and tally, conflicting claims.", "3/C02", "deterministic simulation: independent re-tally + vote provenance registry"),
+ "C03": ("exploration", "History check per chain: accepted nonces are exactly last+1.. in order, at most one accepted record per nonce ever, one observation event per applied nonce; per validator, an accepted claim after its first must be last+1. Workload: orchestrators ahead/behind/repeating, several claims per block, conflicting claims, drops/duplicates/reorders.", "3/C03", "deterministic simulation: nonce-order history oracle"),
+ "C04": ("exploration", "After BeginBlock, after every tx and after EndBlock the pool and all batches are decoded from the raw store: every id is in exactly one place, ids never reused or resurrected, every disappearance is explained in the same step by a successful cancel, an expiry, or an applied execution of its batch; TransactionStatus follows the lifecycle.", "3/C04", "deterministic simulation: per-step location invariant + explained exits"),
  "C05": ("exploration", "Seeded whole-system simulation: the real app (cache-wrapped multistore as in a node) is driven through ABCI by three workload profiles (full bridge loop with transport faults, adversarial full-quorum events that merely pass stateless validation incl. negative/2^255-scale amounts and fees, and size stress with 70-130 pool entries written, timed out and expired in one block). Every BeginBlock/EndBlock runs under a panic handler and a wall-clock watchdog; a panic or a parked-on-lock call with x/mhub2 or x/oracle frames is the violation.", "3/C05", "deterministic simulation: seeded intent traces + adversarial quorum + size stress, ABCI watchdog"),
  "C06": ("exploration", "Three in-process replicas of the real app execute the same seeded blocks; after every ABCI call tx codes, event lists and app hashes are compared (map iteration order and goroutine scheduling differ per replica instance).", "3/C06", "deterministic simulation: replica comparison after every block"),
+ "C09": ("exploration", "After every BeginBlock, per chain: each newly published signer set is compared with members/powers recomputed from the raw staking and key stores (exact rationals, |p - s*(2^32-1)/S| < 1, non-increasing order, consistent tie order, nonce +1), and the latest set must be within 5% of the current set. Workload: delegate/undelegate/create-validator/jail/unjail with equal, dominant, geometric and tiny stakes.", "3/C09", "deterministic simulation: independent recomputation from raw stores"),
+ "C10": ("exploration", "Every batch first seen after BeginBlock, after a tx or after EndBlock: non-empty, <=100, uniform chain/token, fee multiset equals the top-k fees of what was available just before (ties free), batch nonces and outgoing sequences gap-free in creation order. Workload: request-batch at any time, prefix-related Minter coin ids, equal fees, >100 entries.", "3/C10", "deterministic simulation: per-step batch well-formedness oracle"),
+ "C11": ("exploration", "Per-operation postconditions: a successful withdrawal debits exactly amount+fee from the sender and touches no other balance; the recorded transfer equals floor-converted amount-commission; commission <= floor(rate*(a+f)), >= the 60% tier, and agrees with the public DiscountForHolder answer; a failed request leaves bank and bridge stores byte-identical; an applied deposit credits floor(locked*10^(18-dec)) with locked taken from the external model.", "3/C11", "deterministic simulation: per-tx and per-event postconditions with exact arithmetic"),
+ "C12": ("exploration", "Cancel model from the statement (success iff signer is the recorded sender and the entry is in that chain's pool), refund = recorded token+fee+commission converted back, paid once to the sender (hub origin) or as one new transfer to the originating address (cross-chain origin); nothing expires before created+timeout. Workload: foreign/unknown/batched/repeated cancels, clock jumps around the timeout.", "3/C12", "deterministic simulation: reference model for cancel/expiry"),
+ "C13": ("exploration", "Whenever a batch leaves the pending set without an applied execution of itself, the external MODEL (ground truth height and last executed nonce) must be unable to execute it; never on Minter; an applied execution removes exactly that batch and re-pools exactly the older same-token ones. Workload: stalls, bursts, out-of-order execution, short timeouts.", "3/C13", "deterministic simulation: ground-truth executability oracle"),
+ "C14": ("exploration", "Byzantine front-run fault: a validator below the quorum bound submits a copy of the true next event with one listed field changed (or bytes shifted across a field boundary) before the honest votes; the two claims must get different public claim identifiers and the event finally applied must equal the external model's event byte for byte.", "3/C14", "deterministic simulation: Byzantine one-field mutation of true events"),
 }
 NA_REASON = "check under construction in this session (design in DESIGN.md section 3); not claimed until its oracle is built and validated"
 props = [json.loads(l) for l in open('/verif/properties.jsonl')]
